@@ -52,7 +52,7 @@ theorem rc_frames (e : Nat) (n : Nat) (st : Core) (fs : List Frame) :
 theorem rc_prim (e : Nat) {a b : Core} (hp : CorePrim a b) (hne : ∀ ev, b = logEv a ev → ev ≠ Ev.r e) :
     rCount e b.log = rCount e a.log := by
   cases hp with
-  | regCleanup tag nested => rw [regCleanup_log]
+  | regCleanup tag nested drops => rw [regCleanup_log]
   | newItem v => rw [newItem_log]
   | addItemHandle k => rfl
   | newOwnerUnder p paused hp => rw [newOwnerUnder_log]
@@ -333,8 +333,8 @@ theorem k_execWith {e : Nat} {ex : St → BOp → St} (hex : Kex e ex) : Kex e (
     split
     · exact h
     · exact k_getMemo hex h _
-  | cleanup tag => exact h.core (regCleanup · tag false) (by rw [regCleanup_log])
-  | nested tag => exact h.core (regCleanup · tag true) (by rw [regCleanup_log])
+  | cleanup tag => exact h.core (regCleanup · tag false none) (by rw [regCleanup_log])
+  | nested tag => exact h.core (regCleanup · tag true none) (by rw [regCleanup_log])
   | item v => exact h.core (newStored · v) (by rw [newStored_log])
   | sig v => exact k_newSignal h v
   | provide ty v => exact h.core (provide · ty v) (by rw [provide_log])
@@ -364,7 +364,7 @@ theorem k_execHandlerTok (e : Nat) (a st : St) (op : BOp) (h : K e a st) : K e a
   cases op with
   | read s => exact k_readSig h s
   | cleanup tag =>
-    exact (h.core (regCleanup · tag false) (by rw [regCleanup_log])).same rfl rfl
+    exact (h.core (regCleanup · tag false none) (by rw [regCleanup_log])).same rfl rfl
   | item v => exact (h.core (newStored · v) (by rw [newStored_log])).same rfl rfl
   | sig v => exact (k_newSignal h v).same rfl rfl
   | use ty => exact (h.core (useCtx · ty) (rc_useCtx e _ _)).same rfl rfl
